@@ -175,7 +175,13 @@ fn text_leg(rep: &mut Report, rng: &mut Rng, d: &MapsDiff, tgt: &Tgt, t: usize, 
     LegResult { expected: exp.verdict(), seen: if obs.is_ok() { Seen::Applied } else { Seen::Refused } }
 }
 
-fn text_expressible(d: &MapsDiff) -> bool { refmodel::diff_comments(d).iter().all(|c| emit::comment_expressible(c)) }
+/// set by `miri_slice` only (the ordinary workloads never see it): no text legs (the `.tinydiff` reader is reachable only through
+/// `read_file(path)`, and a slice touches no file), small sets with hostile names
+static MIRI_SLICE_MODE: std::sync::atomic::AtomicBool = std::sync::atomic::AtomicBool::new(false);
+fn in_slice() -> bool { MIRI_SLICE_MODE.load(std::sync::atomic::Ordering::Relaxed) }
+fn slice_cfg(c: GenCfg) -> GenCfg { if in_slice() { maps::slice::small(c) } else { c } }
+
+fn text_expressible(d: &MapsDiff) -> bool { !in_slice() && refmodel::diff_comments(d).iter().all(|c| emit::comment_expressible(c)) }
 
 fn count_leg(rep: &mut Report, prefix: &str, r: &LegResult) {
     rep.count(&format!("{prefix}.expected_{}", match r.expected { Verdict::Ok => "ok", Verdict::Refuse => "refusal", Verdict::RefuseBelowRemoved => "refusal_below_removed" }));
@@ -199,7 +205,7 @@ fn apply_case(rep: &mut Report, rng: &mut Rng, d: &MapsDiff, tgt: &Tgt, t: usize
 fn cfg_apply(i: u64) -> GenCfg {
     // targets of apply may have entries without a target name and parameters with source names
     let comments = if i % 5 == 4 { CommentClass::Hostile } else { CommentClass::Rich };
-    GenCfg { namespaces: Some(if i % 6 == 5 { 3 } else { 2 }), comments, comment_chance: (2, 5), absent: (1, 6), max_classes: 4, max_fields: 3, max_methods: 3, big: (1, 60), ..GenCfg::default() }
+    slice_cfg(GenCfg { namespaces: Some(if i % 6 == 5 { 3 } else { 2 }), comments, comment_chance: (2, 5), absent: (1, 6), max_classes: 4, max_fields: 3, max_methods: 3, big: (1, 60), ..GenCfg::default() })
 }
 fn pick_t(rng: &mut Rng, n: usize) -> usize { if n == 2 { 1 } else { rng.usize_in(1, n - 1) } }
 
@@ -238,7 +244,7 @@ fn hostile_case(rng: &mut Rng, rep: &mut Report, i: u64, cells: &[Cell]) {
     // the first rounds use comments the text form can carry, every fourth round the hostile comment class (memory leg only)
     let comments = if round % 4 == 3 { CommentClass::Hostile } else { CommentClass::Rich };
     let n = if round % 5 == 4 { 3 } else { 2 };
-    let cfg = GenCfg { namespaces: Some(n), comments, comment_chance: (2, 5), absent: (1, 6), max_classes: 3, max_fields: 2, max_methods: 2, max_params: 2, big: (0, 1), ..GenCfg::default() };
+    let cfg = slice_cfg(GenCfg { namespaces: Some(n), comments, comment_chance: (2, 5), absent: (1, 6), max_classes: 3, max_fields: 2, max_methods: 2, max_params: 2, big: (0, 1), ..GenCfg::default() });
     let t = pick_t(rng, n);
     let h = gen::hostile(rng, &cfg, cell, n, t);
     let label = cell.label();
@@ -288,10 +294,10 @@ fn fully_named(x: &Tgt) -> bool { let mut ok = true; x.maps.visit(|_, r, _| if r
 fn pair_case(rng: &mut Rng, rep: &mut Report, i: u64) {
     let dom = i % 8;
     let mut share = Share::ALL[((i / 8) % 6) as usize];
-    let base = GenCfg { namespaces: Some(2), fully_named: true, param_src: ParamSrc::Never, comments: CommentClass::Rich, comment_chance: (2, 5), max_classes: 5, max_fields: 3, max_methods: 3, big: (1, 60), ..GenCfg::default() };
+    let base = slice_cfg(GenCfg { namespaces: Some(2), fully_named: true, param_src: ParamSrc::Never, comments: CommentClass::Rich, comment_chance: (2, 5), max_classes: 5, max_fields: 3, max_methods: 3, big: (1, 60), ..GenCfg::default() });
     // every 7th pair is WIDE at one level (up to 90 classes, or up to 90 fields / methods per class): sizes at which an
     // implementation may switch strategy (sorting, hashing, "same key set" short cuts); mostly with all keys shared
-    let wide = i % 7 == 3;
+    let wide = i % 7 == 3 && !in_slice();
     let base = if !wide { base } else {
         share = [Share::AllKeys, Share::AllKeys, Share::SomeKeys, Share::Identical][((i / 21) % 4) as usize];
         match (i / 7) % 3 {
@@ -410,7 +416,7 @@ fn pair_case(rng: &mut Rng, rep: &mut Report, i: u64) {
 /// Histories: a chain of states S0 .. Sk and back to S0; every step is `cur = apply(diff(cur, S_next), cur)` on the
 /// REAL tree the previous step produced (memory / full text / sparse text drawn per step).
 fn history_case(rng: &mut Rng, rep: &mut Report, i: u64) {
-    let cfg = GenCfg { namespaces: Some(2), fully_named: true, param_src: ParamSrc::Never, comments: CommentClass::Rich, comment_chance: (2, 5), max_classes: 4, max_fields: 3, max_methods: 3, big: (1, 80), ..GenCfg::default() };
+    let cfg = slice_cfg(GenCfg { namespaces: Some(2), fully_named: true, param_src: ParamSrc::Never, comments: CommentClass::Rich, comment_chance: (2, 5), max_classes: 4, max_fields: 3, max_methods: 3, big: (1, 80), ..GenCfg::default() });
     let len = 2 + (i % 4) as usize;
     let mut states = vec![gen::gen_tgt(rng, &cfg)];
     for _ in 0..len { let share = *rng.pick(&[Share::AllKeys, Share::SomeKeys, Share::SomeKeys, Share::NoMemberKeys, Share::Independent, Share::NoClassKeys, Share::Identical]); let n = gen::derive_b(rng, &cfg, states.last().unwrap(), share); states.push(n); }
@@ -621,7 +627,30 @@ fn canaries() {
 
 use maps::Act;
 
+/// cases of the Miri slice the thorough tier asks for (measured: see NOTES.md)
+const MIRI_CASES: usize = 40;
+
+/// `c04 --miri-slice <seed> <cases> <max seconds>`: single-threaded, no files. The memory legs of the ordinary workloads (cell
+/// table of hostile (diff, target) pairs, `diff(A,B)` against R-diff and the law `apply(diff(A,B),A)=B`, histories, consistent and
+/// random diffs, hand-written examples, `apply_diff_option`) on small sets in which a third of the simple names are hostile (NUL,
+/// boundary / supplementary code points, descriptor letters, names of 40..1300 bytes); every fourth case carries lone surrogates
+/// in names and descriptors (U+FFFD of the model = a lone surrogate in the diff and in the target tree). The text legs are off:
+/// `tiny_v2_diff::read` is private, only `read_file(path)` is public, and the repository has no `.tinydiff` writer.
+fn miri_slice(seed: u64, cases: usize, max_s: u64) -> i32 {
+    MIRI_SLICE_MODE.store(true, std::sync::atomic::Ordering::Relaxed);
+    let cells = gen::all_cells();
+    maps::slice::run("C04", seed, cases, max_s, 4, |rng, rep, i, _| match i % 8 {
+        // the cell index walks through the whole table over the cases (i / 8 * 3 + k)
+        0 | 3 | 6 => hostile_case(rng, rep, i / 8 * 3 + i % 8 / 3, &cells),
+        1 | 5 => pair_case(rng, rep, i / 8 * 2 + i % 8 / 4),
+        2 => consistent_case(rng, rep, i / 8),
+        4 => random_case(rng, rep, i / 8),
+        _ => match i / 8 % 3 { 0 => history_case(rng, rep, i / 24), 1 => example_case(rng, rep, i / 24 % EXAMPLES), _ => option_case(rng, rep) },
+    })
+}
+
 fn main() {
+    if let Some((seed, n, max_s)) = common::miri::slice_args() { std::process::exit(miri_slice(seed, n, max_s)); }
     let mut ctx = Ctx::from_args("C04", 60, 540);
     let replay = load_replay(&mut ctx);
     let dir = format!("{}/scratch/c04-{}", ctx.out_dir, std::process::id());
@@ -697,6 +726,11 @@ fn main() {
         for k in need { meta.oblige(format!("at least one case with {k}"), rep.get(&k) > 0); }
         meta.oblige("at least 10 distinct text layouts written", rep.seen_n("text.layouts") >= 10);
         for l in ["class", "field", "method"] { meta.oblige(format!("at least 3 wide pairs whose {l} level has 32 or more entries and the same key set on both sides"), rep.get(&format!("pairs.wide.{l}_level_with_32_or_more_entries_and_equal_key_sets")) >= 3); }
+        if ctx.tier == Tier::Thorough {
+            let r = common::miri::run_slice(&ctx, "c04", env!("CARGO_MANIFEST_DIR"), MIRI_CASES, 170, 285);
+            if let Some(line) = r.ub { rep.cur = ("miri".into(), 0); rep.violation(format!("miri: {line}"), json!({"how": format!("cargo +nightly miri run --offline -p c04 -- --miri-slice <seed> {MIRI_CASES} 170"), "seed": ctx.seed as i64, "status": r.status})); }
+            meta.extra.insert("miri_slice".into(), json!(r.status));
+        } else { meta.extra.insert("miri_slice".into(), json!("not run in the quick tier")); }
     }
     std::process::exit(finish(&ctx, rep, meta));
 }
